@@ -329,7 +329,7 @@ def _subview(m: BufferMachine, op, vals, core):
     vals[op.result] = View(src.buf, off, sizes, nstr)
 
 
-@handler(memref.MemorySpaceCastOp, snax.LayoutCast)
+@handler(memref.MemorySpaceCastOp, snax.LayoutCast, memref.CastOp)
 def _cast_alias(m, op, vals, core):
     # a cast that is still there names the same memory (realize-memref-casts leaves dead casts behind for DCE)
     vals[op.results[0]] = m.get(vals, op.operands[0])
